@@ -285,6 +285,10 @@ def run_case(spec):
         do_close()
     app = dp.apps[who]
     end = sch.drain(300.0, 30000, until=lambda: app.closed)
+    if end == "steps":
+        # the step cap, not the virtual-time bound, ended the drain: no verdict on this case
+        world.finish()
+        return {"inconclusive": "step cap reached in the final drain", "violations": []}
     mgr = dp.manager(who)
     viol = []
 
@@ -392,6 +396,10 @@ def run_oldpeer(spec):
     dp.a.close()
     dp.b.close()
     end = sch.drain(300.0, 10000, until=lambda: dp.a.closed and dp.b.closed)
+    if end == "steps":
+        # the step cap, not the virtual-time bound, ended the drain: no verdict on this case
+        world.finish()
+        return {"inconclusive": "step cap reached in the final drain", "violations": []}
     if not (dp.a.closed and dp.b.closed):
         viol.append({"key": "C17/old-peer/close-never-completes/%s" % dp.mstate("A"), "msg": "close with a non-dilating peer hangs (Manager %s)" % dp.mstate("A"),
                      "witness": {"spec": spec, "results": results}})
